@@ -111,7 +111,7 @@ CHECKS["C02"] = dict(
 CHECKS["C13"] = dict(
     engine="sysshim",
     category="fault_enumeration",
-    text="Five parts over generated edit / rollover / reopen sequences with adversarial strings: a fault-free model comparison (plus Manifest::verify and an independent fragment-chain parser), truncation of the live MANIFEST at every byte (small files) or generated bytes, and crash enumeration under the libc shim before every mutating call of apply and rollover in persistence models (a), (b) lose-all, (b) torn; reopening must yield a prefix state that contains every acknowledged edit, or (cuts inside a write only) an explicit error. Every cut / crash image that opens also gets two follow-up edits and two more reopens (life after recovery); edits include removals of absent strings and remove-and-re-add of a present string. Part 4 makes every mutating call in turn report EIO / ENOSPC (writes also: a short write, then ENOSPC) and lets the history go on on the same handle: every later reopen must show the edits that returned Ok plus each failed edit wholly or not at all. Part 5 hands the lock from one process to another: a second process waits in fcntl(F_SETLKW) while the holder applies more edits; it must open exactly what the holder left.",
+    text="Six parts over generated edit / rollover / reopen sequences with adversarial strings: a fault-free model comparison (plus Manifest::verify and an independent fragment-chain parser), truncation of the live MANIFEST at every byte (small files) or generated bytes, and crash enumeration under the libc shim before every mutating call of apply and rollover in persistence models (a), (b) lose-all, (b) torn; reopening must yield a prefix state that contains every acknowledged edit, or (cuts inside a write only) an explicit error. Every cut / crash image that opens also gets two follow-up edits and two more reopens (life after recovery); edits include removals of absent strings and remove-and-re-add of a present string. Part 4 makes every mutating call in turn report EIO / ENOSPC (writes also: a short write, then ENOSPC) and lets the history go on on the same handle: every later reopen must show the edits that returned Ok plus each failed edit wholly or not at all. Part 5 hands the lock from one process to another: a second process waits in fcntl(F_SETLKW) while the holder applies more edits; it must open exactly what the holder left. Part 6: a second open of a root that is still open in the same process is normally refused (not judged); should it succeed, every edit that returned Ok through either handle must survive a reopen.",
     design_ref="DESIGN.md §5 C13",
     note="Info keys are ASCII; '+' and '-' as info keys are out of domain; directory operations are durable once they return.",
     technique="property-based testing against a set/map model plus crash-point and truncation enumeration",
